@@ -136,6 +136,7 @@ func catalogue(w *World) *Catalogue {
 		{"operatorhook", "x/operator/types", "OperatorHooks"},
 		{"dogfoodhook", "x/dogfood/types", "DogfoodHooks"},
 	}
+	wired := wiredEpochHookTypes(w)
 	for _, h := range hookIfaces {
 		iface := w.ifaceIn(h.pkg, h.name)
 		if iface == nil {
@@ -149,9 +150,13 @@ func catalogue(w *World) *Catalogue {
 				if strings.HasPrefix(nt.Obj().Name(), "Multi") || !implements(nt, iface) {
 					continue
 				}
+				cat := h.cat
+				if h.cat == "epochhook" && wired != nil && !wired[nt.Obj()] {
+					cat = "epochhook-unwired" // implements EpochHooks but is not registered in app.go
+				}
 				for i := 0; i < iface.NumMethods(); i++ {
 					mn := iface.Method(i).Name()
-					c.add(&Entry{Cat: h.cat, Name: fmt.Sprintf("%s:%s.%s", h.cat, moduleOfPkg(p.PkgPath), mn), Fn: w.methodOf(nt, mn)})
+					c.add(&Entry{Cat: cat, Name: fmt.Sprintf("%s:%s.%s", cat, moduleOfPkg(p.PkgPath), mn), Fn: w.methodOf(nt, mn)})
 				}
 			}
 		}
@@ -366,17 +371,15 @@ func precompileTable(w *World) []*PCTable {
 			}
 			return true
 		})
-		// reward-style swallow: error converted after the dispatch (`if err != nil { return Pack(false…) }`)
+		// post-dispatch swallow: `if err != nil { … Pack(false…) … }` after the switch
 		if len(t.Methods) > 0 {
 			post := false
 			for _, s := range run.Decl.Body.List {
 				if ifs, ok := s.(*ast.IfStmt); ok {
-					for _, bs := range ifs.Body.List {
-						if rs, ok := bs.(*ast.ReturnStmt); ok && len(rs.Results) > 0 {
-							if ce, ok := rs.Results[0].(*ast.CallExpr); ok && run.calleeName(ce) == "Pack" && len(ce.Args) > 0 {
-								if id, ok := ce.Args[0].(*ast.Ident); ok && id.Name == "false" {
-									post = true
-								}
+					for _, ce := range allCalls(ifs.Body) {
+						if run.calleeName(ce) == "Pack" && len(ce.Args) > 0 {
+							if id, ok := ce.Args[0].(*ast.Ident); ok && id.Name == "false" {
+								post = true
 							}
 						}
 					}
@@ -424,5 +427,75 @@ func registeredPrecompiles(w *World) []string {
 		out = append(out, k)
 	}
 	sort.Strings(out)
+	return out
+}
+
+// epochHookOrder returns the receiver types (by module) of the arguments of the
+// NewMultiEpochHooks(...) call in app.NewExocoreApp, in order.
+func epochHookOrder(w *World) ([]*types.TypeName, ast.Node, *FnView) {
+	v := w.View("app", "NewExocoreApp")
+	if v == nil {
+		return nil, nil, nil
+	}
+	var out []*types.TypeName
+	var node ast.Node
+	for _, c := range v.CallsNamed("NewMultiEpochHooks") {
+		node = c
+		for _, a := range c.Args {
+			t := v.Info.TypeOf(a)
+			if p, ok := t.(*types.Pointer); ok {
+				t = p.Elem()
+			}
+			if nt, ok := t.(*types.Named); ok {
+				out = append(out, nt.Obj())
+			} else {
+				out = append(out, nil)
+			}
+		}
+	}
+	return out, node, v
+}
+
+func wiredEpochHookTypes(w *World) map[*types.TypeName]bool {
+	order, _, _ := epochHookOrder(w)
+	if order == nil {
+		return nil
+	}
+	m := map[*types.TypeName]bool{}
+	for _, t := range order {
+		if t != nil {
+			m[t] = true
+		}
+	}
+	return m
+}
+
+// entryReachable: repo source functions reachable from the live entry points
+// (messages, precompiles, ante, block processing, wired hooks, SDK callbacks).
+var entryReachCache map[*types.Func]string
+
+func entryReachable(w *World) map[*types.Func]string {
+	if entryReachCache != nil {
+		return entryReachCache
+	}
+	cat := catalogue(w)
+	roots := cat.Fns("beginblock", "endblock", "epochhook", "delegationhook", "operatorhook", "dogfoodhook", "msg", "ante", "precompile", "sdkcallback")
+	parent := w.Reach(roots, func(f *ssa.Function) bool { return !w.fnInScope(f) && f.Pkg != nil })
+	out := map[*types.Func]string{}
+	for f := range parent {
+		if !w.fnInScope(f) {
+			continue
+		}
+		root := f
+		for root.Parent() != nil {
+			root = root.Parent()
+		}
+		if fo, ok := root.Object().(*types.Func); ok && w.declOf[fo] != nil {
+			if _, seen := out[fo]; !seen {
+				out[fo] = pathTo(parent, f)
+			}
+		}
+	}
+	entryReachCache = out
 	return out
 }
